@@ -244,19 +244,22 @@ def c03_control_slices(out, cov):
         f = fs[w][0]
         sl = mir.Slice.pruned(f)
         states += len(f.order); transitions += len(sl.rules)
-        ok_blocks = sl.find_blocks(r'_0 = Result::<.*>::Ok\(')
+        # the returned Result's discriminant is a tracked component (_0.t: 0 = Ok, 1 = Err; aggregates set it, moves copy
+        # it, `?` residuals set Err, other calls havoc it), so the query is about the return terminator itself and does
+        # not depend on where or how the Ok value is built
+        ok_blocks = [bb for bb in f.order if f.blocks[bb] and f.blocks[bb][-1].strip() == 'return;' and 'cleanup' not in bb] if '_0.t' in sl.sort else []
         nc_blocks = sl.find_blocks(r'EosError::NotConverged\(')
         if not ok_blocks:
-            out.inconclusive.append('MIR of %s: no Ok-return block found' % w); continue
+            out.inconclusive.append('MIR of %s: no return block with a tracked Result discriminant found' % w); continue
         for bb in ok_blocks:
             # vacuity: the Ok return is reachable at all
-            r0, t0_, _ = sl.query_unreachable(bb)
-            queries.append({'function': w, 'query': 'Ok-return block %s reachable (vacuity witness)' % bb, 'answer': r0, 'solver_s': round(t0_, 2)})
+            r0, t0_, _ = sl.query_unreachable(bb, '(= v_0_t 0)')
+            queries.append({'function': w, 'query': 'return block %s reachable with Ok (vacuity witness)' % bb, 'answer': r0, 'solver_s': round(t0_, 2)})
             if r0 != 'reachable':
-                out.inconclusive.append('%s: vacuity witness failed: Ok block %s not shown reachable (%s)' % (w, bb, r0))
+                out.inconclusive.append('%s: vacuity witness failed: Ok return at %s not shown reachable (%s)' % (w, bb, r0))
             # the property: Ok is never returned when the iteration budget is exhausted without a passed tolerance test
-            r1, t1, raw = sl.query_unreachable(bb, 'vexh', timeout=300)
-            queries.append({'function': w, 'query': 'Ok-return block %s reachable with exh (last Range::next poll returned None)' % bb, 'answer': r1, 'solver_s': round(t1, 2)})
+            r1, t1, raw = sl.query_unreachable(bb, '(and vexh (= v_0_t 0))', timeout=300)
+            queries.append({'function': w, 'query': 'return block %s reachable with Ok and exh (last Range::next poll returned None)' % bb, 'answer': r1, 'solver_s': round(t1, 2)})
             if r1 == 'reachable':
                 # candidate path: confirm natively through the public API
                 nat = None
@@ -276,6 +279,23 @@ def c03_control_slices(out, cov):
                                       {'native_cmd': '%s density_scan 369.8 41.9e5 0.15 24' % NATIVE_BIN, 'native_result': nat, 'chc': raw[:200]})
                     else:
                         out.inconclusive.append('density_iteration: abstract exhaustion path to Ok exists but the native scan found no wrong state (abstraction too coarse)')
+                elif w == 'newton':
+                    build_native()
+                    p = sh([NATIVE_BIN, 'newton_exhaustion', '369.8', '41.9e5', '0.15'], timeout=1200)
+                    try:
+                        nat = json.loads(p.stdout.strip().splitlines()[-1])
+                    except Exception:
+                        nat = None
+                    cov['traces_validated_against_impl'] = cov.get('traces_validated_against_impl', 0) + 1
+                    if nat and nat['ok_but_wrong']:
+                        b = nat['ok_but_wrong'][0]
+                        out.violation({'engine': 'E-M', 'site': 'newton:exhaustion'},
+                                      'C03: the newton helper of State::new_nph/new_nps/... returns Ok after exhausting its iteration budget (abstract path found by z3 Spacer on the MIR control slice); '
+                                      'natively State::%s(Joback + PengRobinson propane, p=%.6g Pa, target taken from the state at T=%.6g K, hint %s) returns Ok at T=%.6g K with a relative deviation %s from the requested value (%d such results)' % (
+                                          b['constructor'], b['p'], b['T_target'], b['hint'], b['T_returned'], b.get('rel_dev_h', b.get('rel_dev_s')), len(nat['ok_but_wrong'])),
+                                      {'native_cmd': '%s newton_exhaustion 369.8 41.9e5 0.15' % NATIVE_BIN, 'native_result': nat, 'chc': raw[:200]})
+                    else:
+                        out.inconclusive.append('newton: abstract exhaustion path to Ok exists but the native scan found no wrong state (abstraction too coarse, or scan too narrow)')
                 else:
                     out.inconclusive.append('%s: abstract path to Ok after exhaustion; no native replay available for this function' % w)
             elif r1 != 'unreachable':
